@@ -52,7 +52,8 @@ func VerifC20Invalid() {
 	path := verifPaths[rt.Choose("path", len(verifPaths))]
 	method := verifMethods[rt.Choose("method", len(verifMethods))]
 	name := []string{"", "name=db", "name=nope"}[rt.Choose("name", 3)]
-	extra := []string{"", "id=1", "id=x", "nodeID=zz", "nodeID=0000000000000009", "lockID=1", "lockID=0"}[rt.Choose("param", 7)]
+	// (node 7 is a replica whose stream subscription is registered on this node; node 9 is unknown)
+	extra := []string{"", "id=1", "id=x", "nodeID=zz", "nodeID=0000000000000009", "lockID=1", "lockID=0", "nodeID=0000000000000007"}[rt.Choose("param", 8)]
 	// the caller's node id: absent, another node's, or this node's own id in any spelling ParseNodeID accepts
 	hdrIdx := rt.Choose("node.header", 6)
 	nodeHdr := []string{"", "00000000000000AA", litefs.FormatNodeID(store.ID()), "0000000000000b0b", "00000000000000B0B", "B0B"}[hdrIdx]
@@ -85,6 +86,8 @@ func VerifC20Invalid() {
 		valid = true // a body that may be a well-formed position map starts a stream: not explored here (C06)
 	case path == "/promote" && method == "POST":
 		valid = true // not explored here
+	case path == "/handoff" && method == "POST" && extra == "nodeID=0000000000000007" && role == 0:
+		valid = true // a handoff to a connected replica on the primary (C08)
 	}
 	// POST /tx is never valid here: no halt lock is held in this harness (the accepted case is VerifC13ForwardedTx)
 	if valid {
